@@ -377,6 +377,16 @@ class Interp:
         self.cur_line = getattr(st, "lineno", self.cur_line)
         if isinstance(st, ast.Expr):
             v = self._ev(st.value)
+            if self.local_tables and isinstance(st.value, ast.Call) and isinstance(st.value.func, ast.Attribute) and isinstance(st.value.func.value, ast.Name) and self.frames \
+                    and st.value.func.value.id in self.frames[-1] and st.value.func.attr in ("append", "extend", "insert", "pop", "clear", "remove", "reverse", "sort") and v[0] == "call":
+                # a method that changes a local sequence whose items are all known: append of a constant is tracked, anything else forgets the items
+                nm_ = st.value.func.value.id
+                cur = self.frames[-1][nm_]
+                if cur[0] == "c" and isinstance(cur[1], tuple):
+                    if st.value.func.attr == "append" and len(v[2]) == 1 and not v[3] and simplify(v[2][0])[0] == "c":
+                        self.frames[-1][nm_] = C(cur[1] + (simplify(v[2][0])[1],))
+                    else:
+                        self.frames[-1][nm_] = ("call", N("$mutated"), (N(nm_),), ())
             if self.append_only and self.depth == 0 and not self.inline_stack and isinstance(st.value, ast.Call) and isinstance(st.value.func, ast.Attribute) \
                     and isinstance(st.value.func.value, ast.Name) and st.value.func.value.id in self.append_only and v[0] == "call" and len(v[2]) == 1:
                 old = self.lookup(st.value.func.value.id)
@@ -418,6 +428,17 @@ class Interp:
             else:
                 tgt = self._ev(st.target)
                 self.emit("aug", (tgt, op, rhs, tgt), st)
+                if self.local_tables and isinstance(st.target, ast.Subscript) and isinstance(st.target.value, ast.Name) and self.frames and st.target.value.id in self.frames[-1]:
+                    # L[i] op= c on a local sequence whose items are all known: the item is replaced
+                    cur = self.frames[-1][st.target.value.id]
+                    key = simplify(self._ev(st.target.slice))
+                    new_v = simplify(OP(op, tgt, rhs))
+                    if cur[0] == "c" and isinstance(cur[1], tuple) and key[0] == "c" and isinstance(key[1], int) and not isinstance(key[1], bool) and -len(cur[1]) <= key[1] < len(cur[1]) and new_v[0] == "c":
+                        items = list(cur[1])
+                        items[key[1]] = new_v[1]
+                        self.frames[-1][st.target.value.id] = C(tuple(items))
+                    elif cur[0] in ("c", "list", "tuple"):
+                        self.frames[-1][st.target.value.id] = ("call", N("$mutated"), (N(st.target.value.id),), ())     # no longer known item by item
             return
         if isinstance(st, ast.Return):
             v = self._ev(st.value) if st.value is not None else C(None)
@@ -717,6 +738,9 @@ class Interp:
         if isinstance(t, ast.Name) and self.named_containers and self.depth == 0 and not self.inline_stack and (
                 v in (("dictd", ()), ("list", ()), ("set", ()), ("tuple", ())) or (v[0] == "call" and v[1] in (N("dict"), N("list"), N("set")) and not v[2] and not v[3])):
             self.bind(t.id, N(t.id))
+            return
+        if isinstance(t, ast.Name) and self.local_tables and v[0] == "list" and all(simplify(x)[0] == "c" for x in v[1]):
+            self.bind(t.id, C(tuple(simplify(x)[1] for x in v[1])))      # a local sequence known item by item (stores / appends are tracked)
             return
         if isinstance(t, ast.Name) and self.depth == 0 and not self.inline_stack and t.id in getattr(self, "mutated_locals", ()) and (
                 (v[0] in ("list", "set", "dictd") and v[1]) or (v[0] == "c" and isinstance(v[1], (tuple, frozenset, dict)) and len(v[1]) > 0 and False)):
